@@ -21,7 +21,7 @@ RULE = ("schemas of depth <= 4 and width <= 6 with identifier keys whose option 
         "form and marked user-defined, every other value and flag untouched'; non-trivial = >= 4 paths and >= 1 "
         "command line applied; distinct = distinct (schema, state, command line)")
 REQUIRED = ("schema_grown_after_enumeration", "paths_checked", "dotted_assignments_checked", "parsers_compared", "overrides_compared", "argv:empty",
-            "argv:bool-on", "argv:bool-off", "argv:value", "argv:repeated", "argv:invalid", "ignore:str", "ignore:list",
+            "argv:bool-on", "argv:bool-off", "argv:bool-both-switches", "argv:value", "argv:repeated", "argv:invalid", "ignore:str", "ignore:list",
             "state:mutated", "depth>=3")
 ASSUMPTIONS = ["enumeration is judged on root schemas / configurations; membership is demanded of stored fields only",
                "missing paths are never looked up on a schema (that would create them)",
@@ -50,6 +50,11 @@ def generate(rng, ctx):
             if rng.random() < 0.5:
                 b["params"]["default"] = rng.random() < 0.7
             schema["fields"].append(b)
+        # build styles: sub-schemas created by attribute access / item lookup / dotted item paths, or built and used
+        # on their own before being mounted (field paths must not depend on the order of construction)
+        for p, nd in spec.walk(schema):
+            if nd["kind"] == "schema" and "[]" not in p and rng.random() < 0.4:
+                nd["style"] = rng.choice(["mounted", "mounted", "auto", "getitem", "dotted"])
         paths = [p for p, nd in spec.walk(schema) if "[]" not in p]
         opts = set()
         ok = True
@@ -76,6 +81,12 @@ def generate(rng, ctx):
             fam = nd["family"]
             if fam in BOOL:
                 on = rng.random() < 0.5
+                if kind == "repeated" and rng.random() < 0.6:
+                    # both switches of one boolean: the last one wins
+                    argv.append("--no-" + _opt(p)[2:] if on else _opt(p))
+                    if rng.random() < 0.3:
+                        argv.append(_opt(p) if on else "--no-" + _opt(p)[2:])
+                        argv.append("--no-" + _opt(p)[2:] if on else _opt(p))
                 argv.append(_opt(p) if on else "--no-" + _opt(p)[2:])
                 supplied[p] = on
             elif fam in SCALAR_STR | SCALAR_NUM:
@@ -254,8 +265,11 @@ def run(case, ctx, res):
             with contextlib.redirect_stderr(io.StringIO()):
                 args = parser.parse_args(argv)
         except SystemExit:
+            # every generated option is a plain store / store_true / store_false: a command line made of generated
+            # options, each value option followed by one value, must parse
             res.count("argparse_rejected_command_line")
-            continue
+            res.viol("M-parser", "rejects-command-line", "the generated parser rejected %r, a command line over its own options" % (argv,))
+            return
         ign = cl["ignore"]
         ign_list = [ign] if isinstance(ign, str) else (ign or [])
         before = Snapshot(cfg)
@@ -280,6 +294,8 @@ def run(case, ctx, res):
             err = None
         except Exception as exc:
             err = exc
+        if any(argv.count(_opt(p)) + argv.count("--no-" + _opt(p)[2:]) > 1 for p, v in supplied.items() if isinstance(v, bool)):
+            res.count("argv:bool-both-switches")
         res.count("argv:" + ("empty" if not argv else cl["kind"] if cl["kind"] in ("repeated", "invalid") else "value"))
         if any(isinstance(v, bool) and v for v in supplied.values()):
             res.count("argv:bool-on")
